@@ -829,6 +829,32 @@ func c14Replay(r *h.Result, path string) error {
 			}
 			c14RunLoop(r, cs)
 			r.Case("replay:"+cs.Query, true)
+		case "heap-model":
+			var cs c14HeapCase
+			if err := json.Unmarshal(o, &cs); err != nil {
+				return err
+			}
+			op, im, err := c14HeapRun(cs)
+			if err != nil {
+				return err
+			}
+			f := strings.Fields(op)
+			for k := range f {
+				f[k] = c14HeapNormalise(f[k])
+			}
+			op = strings.Join(f, " ")
+			r.Case("replay:heap-model", true)
+			if err := r.Compare("heap-model", []string{op}, []string{im}, []any{cs}); err != nil {
+				return err
+			}
+		case "history-cross":
+			var cs c14hCase
+			if err := json.Unmarshal(o, &cs); err != nil {
+				return err
+			}
+			if err := c14hReplay(r, cs); err != nil {
+				return err
+			}
 		case "fmt-model":
 			var cs c14FmtCase
 			if err := json.Unmarshal(o, &cs); err != nil {
@@ -840,7 +866,7 @@ func c14Replay(r *h.Result, path string) error {
 				return err
 			}
 		default:
-			return fmt.Errorf("replay: stream %q cannot be replayed (streams with a replay: reexec-traceql, reexec-dirty-logql, reexec-model-metric, retranslate-api, fmt-model, portions-real)", hd.Stream)
+			return fmt.Errorf("replay: stream %q cannot be replayed (streams with a replay: reexec-traceql, reexec-dirty-logql, reexec-model-metric, retranslate-api, fmt-model, portions-real, history-cross, heap-model)", hd.Stream)
 		}
 	}
 	return nil
